@@ -1416,12 +1416,22 @@ class Constructs(mixin.Container, core.Constructs):
                 # Map item axes in the two instances
                 axes0_to_axes1[axes0] = axes1
 
-        for axes0, axes1 in axes0_to_axes1.items():
+        axes_pairs = list(axes0_to_axes1.items())
+
+        # The domain axes spanned by the field's data (if any) must
+        # correspond to each other in the same way as those spanned by
+        # the metadata constructs
+        data_axes0 = self._field_data_axes
+        data_axes1 = getattr(other, "_field_data_axes", None)
+        if data_axes0 is not None and data_axes1 is not None:
+            axes_pairs.append((tuple(data_axes0), tuple(data_axes1)))
+
+        for axes0, axes1 in axes_pairs:
             for axis0, axis1 in zip(axes0, axes1):
                 if axis0 in axis0_to_axis1 and axis1 != axis0_to_axis1[axis0]:
                     logger.info(
                         f"{self.__class__.__name__}: Ambiguous axis mapping "
-                        f"({self.domain_axis_identity(axes0)} -> both "
+                        f"({self.domain_axis_identity(axis0)} -> both "
                         f"{other.domain_axis_identity(axis1)} and "
                         f"{other.domain_axis_identity(axis0_to_axis1[axis0])})"
                     )  # pragma: no cover
@@ -1432,9 +1442,9 @@ class Constructs(mixin.Container, core.Constructs):
                 ):
                     logger.info(
                         f"{self.__class__.__name__}: Ambiguous axis mapping "
-                        f"({self.domain_axis_identity(axis0)} -> both "
-                        f"{self.domain_axis_identity(axis1_to_axis0[axis0])} "
-                        f"and {other.domain_axis_identity(axes1)})"
+                        f"(both {self.domain_axis_identity(axis0)} and "
+                        f"{self.domain_axis_identity(axis1_to_axis0[axis1])} "
+                        f"-> {other.domain_axis_identity(axis1)})"
                     )  # pragma: no cover
                     if not _return_axis_map:
                         return False
